@@ -2765,6 +2765,38 @@ def r9(pid):
             for i in more:
                 st.poll(i)
             out.append(case("abandoned-before-pubrec-R%d" % R, st.script(), ["abandoned", "R%d" % R]))
+    if pid in ("C11", "C12"):
+        # a subscribe refused locally for its size has used up its subscription identifier for good: another subscribe that took
+        # the next one in the meantime keeps it to itself
+        for order in ("late-refusal", "early-refusal"):
+            st = S(connack_props=[(39, 64)])
+            a = st.sub(topic=b"f" * 80)
+            st.poll(a)
+            b_ = st.sub(topic=b"b")
+            st.poll(b_)
+            if order == "late-refusal":
+                st.poll(a)                      # A learns of its refusal only now, after B took the next identifier
+            c_ = st.sub(topic=b"c")
+            st.poll(c_)
+            if order != "late-refusal":
+                st.poll(a)
+            d_ = st.sub(topic=b"d")
+            st.poll(d_)
+            st.deliver(M.suback(st.ops[b_]["pid"])), st.poll(b_), st.deliver(M.suback(st.ops[c_]["pid"])), st.poll(c_)
+            st.deliver(M.suback(st.ops[d_]["pid"])), st.poll(d_)
+            out.append(case("refused-subscribe-keeps-its-identifier-%s" % order, st.script(), ["refused-subscribe", order]))
+    if pid in ("C07", "C09", "C08"):
+        # only QoS 2 has re-deliveries to suppress: an inbound QoS 1 identifier is free again once its PUBACK is written, and a
+        # later PUBLISH of any QoS that reuses it is a new message
+        st = S()
+        a = st.sub(b"a")
+        st.poll(a), st.deliver(M.suback(1)), st.poll(a), st.ev("tostream %d" % a)
+        st.deliver(M.publish(b"a", b"x", 1, 7, ps=[(11, 1)])), st.deliver(M.publish(b"a", b"y", 1, 8, ps=[(11, 1)]))
+        st.deliver(M.publish(b"a", b"z", 1, 7, ps=[(11, 1)])), st.deliver(M.publish(b"a", b"w", 2, 8, ps=[(11, 1)]))
+        st.deliver(M.publish(b"a", b"w", 2, 8, 1, ps=[(11, 1)])), st.deliver(M.pubrel(8)), st.deliver(M.publish(b"a", b"v", 1, 8, 1, ps=[(11, 1)]))
+        for _ in range(6):
+            st.ev("pollstream %d" % a)
+        out.append(case("qos1-identifier-reused", st.script(), ["qos1-reuse"]))
     if pid in ("C07", "C13"):
         # streams end when the Context is gone, not when a connection ends: after the user's DISCONNECT (any Session Expiry
         # Interval, 0 and omitted included) the stream is still there, and serves the next connection of the same Context
